@@ -89,6 +89,17 @@ Definition hash_decls_reviewed : list (string * string * string * string) := [
   ; ("src/ir/types.rs", "fn InitInstr::fix_id_mapping", "func_mapping", "&HashMap<u32,u32>")
   ; ("src/ir/types.rs", "fn InitInstr::fix_id_mapping", "global_mapping", "&HashMap<u32,u32>")
   ; ("src/ir/types.rs", "fn InstrumentationFlag::add_injections", "side_effects", "&mut HashMap<InjectType,Vec<Injection<'a>>>")
+  (* D22 repair (8c3d137): the three id maps are passed on to fix_op_id_mapping (lookups only), side_effects gets one
+     entry pushed through add_injection: no iteration over a HashMap *)
+  ; ("src/ir/types.rs", "fn InstrumentationFlag::add_unresolved_injections", "func_mapping", "&HashMap<u32,u32>")
+  ; ("src/ir/types.rs", "fn InstrumentationFlag::add_unresolved_injections", "global_mapping", "&HashMap<u32,u32>")
+  ; ("src/ir/types.rs", "fn InstrumentationFlag::add_unresolved_injections", "memory_mapping", "&HashMap<u32,u32>")
+  ; ("src/ir/types.rs", "fn InstrumentationFlag::add_unresolved_injections", "side_effects", "&mut HashMap<InjectType,Vec<Injection<'a>>>")
+  (* D21 repair (6867bcc): the name maps are Vecs; `mapping` is only looked up (`mapping.get(idx)`) while iterating the
+     Vec, and the result is sorted by the new index: independent of any HashMap order *)
+  ; ("src/ir/wrappers.rs", "fn reindex_indirect_namemap", "mapping", "&HashMap<u32,u32>")
+  ; ("src/ir/wrappers.rs", "fn reindex_namemap", "mapping", "&HashMap<u32,u32>")
+  ; ("src/ir/wrappers.rs", "fn reindex_names", "mapping", "&HashMap<u32,u32>")
   ; ("src/ir/wrappers.rs", "fn update_fn_instr", "mapping", "&HashMap<u32,u32>")
   ; ("src/ir/wrappers.rs", "fn update_global_instr", "mapping", "&HashMap<u32,u32>")
   ; ("src/ir/wrappers.rs", "fn update_memory_instr", "mapping", "&HashMap<u32,u32>")
